@@ -428,7 +428,7 @@ func runSSTDamage(args []string) error {
 				case "disk":
 					ropts = append(ropts, sstables.ReadIndexLoader(&sstables.DiskIndexLoader{}))
 				}
-				ev := M{"t": "dmg", "kind": kind, "off": off, "val": val, "mode": mode, "loader": loader, "open": "ok", "gets": []string{}, "scan": [][]any{}, "scanend": "ok",
+				ev := M{"t": "dmg", "kind": kind, "off": off, "val": val, "mode": mode, "loader": loader, "dcomp": c.DComp, "open": "ok", "gets": []string{}, "scan": [][]any{}, "scanend": "ok",
 					"range": [][]any{}, "rangeend": "ok"}
 				func() {
 					defer func() {
